@@ -241,6 +241,16 @@ pub fn main(subjects: Vec<Box<dyn DynSubject>>, lay: (Layouts, BTreeMap<String, 
         std::fs::write(&out, serde_json::to_string(&j).unwrap()).unwrap();
         return;
     }
+    if prop == "corpus-write" {
+        let ctx = Ctx { u: &u, model: Model::new(&u, &lay.0), units: &lay.1, tier, seed, prop: prop.clone(), cases: 1, tmp: tmp.clone(), known: &known };
+        for (i, s) in subjects.iter().enumerate() {
+            if let Err(e) = crate::checks::format::corpus_write(&ctx, &**s, &u.subjects[i]) {
+                eprintln!("corpus: {}: {}", s.name(), e);
+            }
+        }
+        std::fs::write(&out, "{}").unwrap();
+        return;
+    }
     if prop == "C04" {
         let start = std::time::Instant::now();
         let ctx = Ctx { u: &u, model: Model::new(&u, &lay.0), units: &lay.1, tier, seed, prop: prop.clone(), cases: 1, tmp: tmp.clone(), known: &known };
